@@ -43,7 +43,7 @@ TIMEOUT = {'quick': 300, 'thorough': 3000}
 
 FATAL_R = ['H', 'C', 'M', 'A', 'E', 'X']            # usable in both modes
 MODE_U_ONLY = ['S', 'R', 'K', 'T']
-HARMLESS = ['unknown', 'noparam', 'ainit_fail', 'restore_fail', 'storage_read_fail',
+HARMLESS = ['unknown', 'unknown_fsm', 'noparam', 'ainit_fail', 'restore_fail', 'restore_fail_td', 'storage_read_fail',
             'schema_reject']
 
 
@@ -106,6 +106,19 @@ def run_case(case, ctx):
                         raise exc
                 objs[i] = MP(f"m{i}", x_hist=hist, x_script={'init_regular': 'set'}, x_emit={},
                              stop_timeout=1)
+            elif kind == 'FK':
+                # an FSM whose entry action fails with a KeyError (a dictionary lookup keyed by
+                # event data) while an event is being handled
+                class KFsm(edzed.FSM):
+                    STATES = ['a', 'b']
+                    EVENTS = [['go', 'a', 'b'], ['go', 'b', 'a']]
+
+                    def enter_b(self, i=i):
+                        exc = KeyError(f"FK{i}")
+                        excs[i] = exc
+                        fired.append(('H', i))
+                        raise exc
+                objs[i] = KFsm(f"k{i}")
             elif kind == 'MC':
                 # a worker task that its own block cancels (a 'restart' event) and that fails
                 # with an ordinary exception while it handles the cancellation
@@ -204,6 +217,24 @@ def run_case(case, ctx):
                     return 0
                 edzed.FuncBlock(f"zf{i}", func=func).connect(inp)
                 objs[i] = inp
+            elif kind == 'IE':
+                # the synchronous initialisation is triggered early by an event arriving during
+                # the asynchronous initialisation phase; it fails, the sender of the event
+                # catches the exception; a second attempt would succeed
+                class IEP(edzed.SBlock):
+                    x_attempts = 0
+
+                    def init_regular(self, i=i):
+                        type(self).x_attempts += 1
+                        res['ie_attempts'] = type(self).x_attempts
+                        if type(self).x_attempts == 1:
+                            hist.log('ie_init_raises', i)
+                            raise SrcError(f"I{i}")
+                        self.set_output(0)
+
+                    def _event(self, etype, data):
+                        return 'pong'
+                objs[i] = IEP(f"ie{i}")
             elif kind == 'I':
                 class IP(edzed.SBlock):
                     def init_regular(self, i=i):
@@ -218,6 +249,10 @@ def run_case(case, ctx):
                           stop_timeout=3)
         if case.get('harmless') == 'noparam':
             objs['cnt'] = edzed.Counter('cnt')
+        if case.get('harmless') == 'unknown_fsm':
+            # FSM-based blocks report an unknown event type from deeper inside
+            objs['htmr'] = edzed.Timer('htmr', t_on=100)
+            objs['hiexp'] = edzed.InputExp('hiexp', duration=100, initdef=1)
         # harmless fault carriers
         if case.get('harmless') == 'ainit_fail':
             probes.make_probe('af', {'ainit', 'initdef'}, hist,
@@ -225,6 +260,11 @@ def run_case(case, ctx):
         if case.get('harmless') == 'restore_fail':
             probes.make_probe('rf', {'persist', 'initdef'}, hist, {'restore': 'raise'},
                               persistent=True, initdef=1)
+        if case.get('harmless') == 'restore_fail_td':
+            # library blocks with a saved state they cannot parse (damaged, other version)
+            edzed.TimeDate('rtd', times='10:00-11:00', persistent=True)
+            edzed.TimeSpan('rts', span='2020-01-01 0:0 - 2020-01-02 0:0', persistent=True)
+            edzed.Counter('rcn', persistent=True, initdef=2)
         if case.get('harmless') == 'schema_reject':
             # an Input whose schema refuses values with an exception class of its own; a stale
             # saved value is refused at the restore, a wrong external value at t=0.5
@@ -241,8 +281,24 @@ def run_case(case, ctx):
             # (after the asynchronous one): not initialised yet when the stop request arrives
             edzed.Timer('lp_timer', persistent=True)
             edzed.Input('lp_input', persistent=True, initdef=3)
-            probes.make_probe('slowinit', {'ainit', 'initdef'}, hist, {'init_async': ('ok', 6.0)},
-                              init_timeout=8, initdef=1)
+            if case['slow_init'] == 'swallow':
+                # its clean-up fails when it is cancelled: the CancelledError forwarded by the
+                # simulator ends up as an ordinary (only logged) error of the init task
+                class Swallow(edzed.AddonAsync, edzed.SBlock):
+                    async def init_async(self):
+                        try:
+                            await asyncio.sleep(6.0)
+                        except asyncio.CancelledError:
+                            raise ConnectionError('vf: closing the connection failed') from None
+                        self.set_output(1)
+
+                    def init_regular(self):
+                        if not self.is_initialized():
+                            self.set_output(0)
+                Swallow('slowinit', init_timeout=8)
+            else:
+                probes.make_probe('slowinit', {'ainit', 'initdef'}, hist,
+                                  {'init_async': ('ok', 6.0)}, init_timeout=8, initdef=1)
         if case.get('harmless') == 'stop_fail':
             probes.make_probe('sf', set(), hist, {'init_regular': 'set', 'stop': 'raise'})
         return objs
@@ -254,6 +310,8 @@ def run_case(case, ctx):
                 edzed.ExtEvent(objs[i], 'boom').send()
             elif kind == 'MC':
                 edzed.ExtEvent(objs[i], 'restart').send()
+            elif kind == 'FK':
+                edzed.ExtEvent(objs[i], 'go').send()
             elif kind in ('C', 'Z', 'ZC'):
                 edzed.ExtEvent(objs[i]).send(1)
             elif kind in ('E', 'EC'):
@@ -262,6 +320,9 @@ def run_case(case, ctx):
                 edzed.ExtEvent(objs[i]).send(1)
             elif kind == 'HN':
                 edzed.ExtEvent(objs[i], 'put').send()      # no 'value'
+            elif kind == 'IE':
+                res['ie_sent'] = True
+                edzed.ExtEvent(objs[i], 'ping').send()
             elif kind == 'A':
                 exc = SrcError(f"A{i}")
                 excs[i] = exc
@@ -297,6 +358,11 @@ def run_case(case, ctx):
         circuit.abort = abort
         if case.get('harmless') == 'restore_fail':
             circuit.set_persistent_data({"<Probe_initdef_persist 'rf'>": 5, 'edzed-stop-time': 0.0})
+        elif case.get('harmless') == 'restore_fail_td':
+            circuit.set_persistent_data({
+                "<TimeDate 'rtd'>": {'times': 'half past six', 'dates': None, 'weekdays': [33]},
+                "<TimeSpan 'rts'>": [[[2020, 1, 1], [2020]]],
+                "<Counter 'rcn'>": 'seven', 'edzed-stop-time': 0.0})
         elif case.get('harmless') == 'storage_read_fail':
             import collections.abc
 
@@ -343,7 +409,7 @@ def run_case(case, ctx):
         def schedule(simtask_getter, runtask_getter):
             for i, (kind, t) in enumerate(actions):
                 when = t0 + t
-                if kind in ('H', 'C', 'E', 'A', 'Z', 'ZC', 'EC', 'HC', 'HN', 'MC'):
+                if kind in ('H', 'C', 'E', 'A', 'Z', 'ZC', 'EC', 'HC', 'HN', 'MC', 'FK', 'IE'):
                     loop.call_at(when, fire, i, kind, objs, circuit)
                 elif kind == 'X':
                     async def do_shutdown(i=i):
@@ -385,11 +451,17 @@ def run_case(case, ctx):
                 loop.call_at(t0 + min(t for _k, t in actions) + 0.25, probe_ready)
             # harmless faults at t=0.5
             h = case.get('harmless')
-            if h in ('unknown', 'noparam', 'schema_reject'):
+            if h in ('unknown', 'unknown_fsm', 'noparam', 'schema_reject'):
                 def harmless():
                     try:
                         if h == 'unknown':
                             edzed.ExtEvent(objs['pinger'], 'bogus').send()
+                        elif h == 'unknown_fsm':
+                            try:
+                                edzed.ExtEvent(objs['htmr'], 'bogus').send()
+                            except edzed.EdzedUnknownEvent:
+                                pass
+                            edzed.ExtEvent(objs['hiexp'], 'bogus').send(5)
                         elif h == 'schema_reject':
                             res['schema_reject_ret'] = edzed.ExtEvent(objs['sch']).send('text')
                         else:
@@ -546,6 +618,19 @@ def judge(case, res, fired, excs, hist, ctx):
     import edzed
     mode = case['mode']
     where = f"mode={mode} actions={case['actions']} harmless={case.get('harmless')} fired={fired}"
+    if any(k == 'IE' for k, _ in case['actions']):
+        # a failed synchronous initialisation (here: run early, on behalf of an event whose
+        # sender caught the exception) terminates the simulation - with whatever error
+        if res.get('ie_attempts', 0) < 1 or not res.get('ie_sent'):
+            raise core.Inconclusive(f"C09: {where}: the early initialisation was not triggered")
+        ctx.count('early_sync_init_failures')
+        sim_exc = res.get('simtask_exc')
+        if res.get('alive_until_end') or not isinstance(sim_exc, Exception):
+            raise core.Violation(
+                'sync-init-error-did-not-stop-simulation',
+                f"{where}: init_regular() raised when an event made it run early (attempts: "
+                f"{res.get('ie_attempts')}); the simulation went on, ended with {sim_exc!r}")
+        return
     sim_fatal = [f for f in fired if f[0] in ('H', 'C', 'M', 'A', 'E', 'I', 'B')]
     first = fired[0] if fired else None
     error = res.get('error')
@@ -686,6 +771,9 @@ def gen(ctx):
     for k in kindsR:
         cases.append({'mode': 'R', 'actions': [[k, 1]]})
     cases.append({'mode': 'R', 'actions': [['I', 0]]})
+    for t in (0.5, 1, 3):
+        cases.append({'mode': 'R', 'actions': [['IE', t]], 'slow_init': True})
+    cases.append({'mode': 'R', 'actions': [['IE', 1]], 'slow_init': 'swallow'})
     cases.append({'mode': 'R', 'actions': [['B', 0]]})
     for mode in 'RUN':
         cases.append({'mode': mode, 'actions': [['BC', 0]]})
@@ -720,6 +808,8 @@ def gen(ctx):
         cases.append({'mode': 'U', 'actions': [[a, 1], ['K', 1], ['K', 1.25]]})
     for k in ('X', 'A', 'Z'):
         cases.append({'mode': 'R', 'actions': [[k, 1]], 'slow_init': True})
+        cases.append({'mode': 'R', 'actions': [[k, 1]], 'slow_init': 'swallow'})
+        cases.append({'mode': 'U', 'actions': [[k, 1]], 'slow_init': 'swallow'})
     # abort requested from inside the simulation task during the synchronous initialisation
     cases.append({'mode': 'R', 'actions': [['EI', 0]]})
     cases.append({'mode': 'U', 'actions': [['EI', 0]]})
@@ -730,7 +820,7 @@ def gen(ctx):
     cases.append({'mode': 'U', 'actions': [['S', 1], ['SC', 0]]})
     cases.append({'mode': 'U', 'actions': [['S', 1], ['SC', 0], ['SC', 0]]})
     cases.append({'mode': 'U', 'actions': [['S', 1], ['SC', 0], ['R', 2]]})
-    for inner in ('EC', 'HC', 'HN', 'MC'):
+    for inner in ('EC', 'HC', 'HN', 'MC', 'FK'):
         cases.append({'mode': 'R', 'actions': [[inner, 1]]})
         cases.append({'mode': 'U', 'actions': [[inner, 1]]})
         for a in kindsR:
@@ -773,7 +863,7 @@ def gen(ctx):
     # wake-up latency injected into the virtual loop, optional slow initialisation
     rng = ctx.rng('random')
     nrand = 160 if ctx.tier == 'quick' else 400000
-    inner = ['Z', 'ZC', 'EC', 'HC', 'HN', 'MC']
+    inner = ['Z', 'ZC', 'EC', 'HC', 'HN', 'MC', 'FK']
     for i in range(nrand):
         mode = rng.choice(['R', 'R', 'U', 'U', 'N'])
         pool = FATAL_R + inner + (['S', 'R', 'K', 'T'] if mode == 'U' else
